@@ -40,6 +40,21 @@ def run(rep, tier):
     backends = ["model32", "noop"] if tier == "quick" else ["model32", "model32gi", "noop", "dylib"]
     dbs = facts.load_core(backends, ["PTR", "INVOKE", "ARR"], thorough=(tier == "thorough"))
     n = {"layout": 0, "opaque": 0, "cast": 0}
+    rep.rule("R-C20-invoke", "a tainted_opaque argument of a sandbox call reaches the backend exactly like the tainted value it stands for: through the checked conversion, never through a plain C++ conversion, and in the "
+             "sandbox-ABI representation (shared analysis with C11's R-C11-args / R-C11-abi, on the instantiations that take tainted_opaque parameters)")
+    from . import c11 as _c11
+    from ..report import RuleView
+    for db in dbs:
+        for f in db.functions:
+            if f["dep"] or "body" not in f or f["n"] != "rlbox::rlbox_sandbox::INTERNAL_invoke_with_func_ptr":
+                continue
+            if not any("tainted_opaque<" in ((p_["t"] or {}).get("c") or "") for p_ in f["params"]):
+                continue
+            inst_ = "%s | %s" % (db.label, f["full"][:150])
+            try:
+                _c11.check_invoke(RuleView(rep, {"R-C11-args": "R-C20-invoke", "R-C11-abi": "R-C20-invoke"}), db, f, inst_)
+            except Inconclusive as ex:
+                rep.inconclusive("R-C20-invoke", site(f), str(ex), inst_)
     for db in dbs:
         rep.units.append(db.label)
         tainted_by_args = {}
